@@ -176,6 +176,21 @@ func encSpecs() []*EncSpec {
 		}
 		return append([]byte{byte(len(x) >> 8), byte(len(x))}, x...), nil
 	}})
+	add(&EncSpec{"RAW", rawStrEnc{}, func(ids []uint64) (interface{}, [][]byte) {
+		vs := make([]string, len(ids))
+		bs := make([][]byte, len(ids))
+		for i, id := range ids {
+			vs[i] = s16(id)
+			bs[i] = []byte(vs[i])
+		}
+		return vs, bs
+	}, func(v interface{}) ([]byte, error) {
+		x, ok := v.(string)
+		if !ok {
+			return nil, fmt.Errorf("type %T", v)
+		}
+		return []byte(x), nil
+	}})
 	add(&EncSpec{"B3", encode.Bytes{Size: 3}, func(ids []uint64) (interface{}, [][]byte) {
 		vs := make([][]byte, len(ids))
 		bs := make([][]byte, len(ids))
@@ -242,3 +257,12 @@ func specByName(name string) *EncSpec {
 	}
 	return nil
 }
+
+// rawStrEnc is a user-defined variable-width encoder whose encoding of the
+// empty string has zero bytes (the SlimTrie stores element sizes itself).
+type rawStrEnc struct{}
+
+func (rawStrEnc) Encode(d interface{}) []byte        { return []byte(d.(string)) }
+func (rawStrEnc) Decode(b []byte) (int, interface{}) { return len(b), string(b) }
+func (rawStrEnc) GetSize(d interface{}) int          { return len(d.(string)) }
+func (rawStrEnc) GetEncodedSize(b []byte) int        { return len(b) }
